@@ -73,12 +73,38 @@ def _worker(task):
             pass
         for r in out:
             r.setdefault("group", name)
+        if any(r["status"] in ("error", "inconclusive") for r in out) and not any(r["status"] == "violation" for r in out):
+            fb = _fallback_replay(task, "; ".join(f"{r['name']}: {r.get('detail', '')[:160]}" for r in out if r["status"] in ("error", "inconclusive"))[:600])
+            if fb is not None:
+                out.append(fb)
         return dict(task=name, records=out, wall_s=time.time() - t0)
     except BaseException as e:  # noqa
         if isinstance(e, KeyboardInterrupt):
             raise
         tb = traceback.format_exc()
+        fb = _fallback_replay(task, f"{type(e).__name__}: {e}")
+        if fb is not None:
+            return dict(task=name, records=[fb], wall_s=time.time() - t0)
         return dict(task=name, records=[rec(name, "error", detail=f"{type(e).__name__}: {e}\n{tb[-1500:]}")], wall_s=time.time() - t0)
+
+
+def _fallback_replay(task, why):
+    """a task whose encoding could not be built or decided (harness error / inconclusive) is followed by its concrete replay on the real
+    code, when the task declares one: a change to the repository that breaks the encoding is reported as a violation only if the real
+    code demonstrably violates the property on the replay points; otherwise the task stays an error / inconclusive (exit 2)"""
+    rp = task.get("replay")
+    if not rp:
+        return None
+    try:
+        ok, msg = _resolve(rp["func"])(**rp.get("kwargs", {}))
+    except BaseException as e:  # noqa
+        if isinstance(e, KeyboardInterrupt):
+            raise
+        return None
+    if not ok:
+        return None
+    return rec(task["name"] + " [concrete replay after an undecided encoding]", "violation", detail=f"encoding undecided ({why}); the real code violates the property on the replay points: {msg}",
+               replay=dict(func=rp["func"], kwargs=rp.get("kwargs", {})), nontrivial=False)
 
 
 def sha256_file(p):
